@@ -109,10 +109,13 @@ def lower(e: Ex, arrays) -> Ex:
                 else:
                     words.append(a[ref])
             return Ex("var", e.ty, (), "(" + " ".join(words) + ")")
-        if e.op in ("sumband2", "slicenonneg2"):
+        if e.op in ("sumband2", "slicenonneg2", "rowmaskzero", "rownonneg"):
             info = arrays[e.aux]
-            f = "PyInterp.sumBand2" if e.op == "sumband2" else "PyInterp.allNonneg2"
+            f = {"sumband2": "PyInterp.sumBand2", "slicenonneg2": "PyInterp.allNonneg2", "rowmaskzero": "PyInterp.rowMaskZero",
+                 "rownonneg": "PyInterp.rowNonneg"}[e.op]
             return Ex("var", e.ty, (), "(" + " ".join([f, info.lean] + list(info.dims) + a) + ")")
+        if e.op == "inbaxis0":
+            return Ex("var", e.ty, (), f"(PyLoops.inb {arrays[e.aux].dims[0]} {a[0]})")
         text = {"band": "(PyInterp.band {0} {1})", "bor": "(PyInterp.bor {0} {1})", "trunc": "(PyInterp.truncRat {0})"}
         text.update(LOWER_TEXT)
         return Ex("var", e.ty, (), text[e.op].format(*a))
@@ -169,6 +172,28 @@ def ev(e: Ex, env, arrays):
         if e.op == "slicenonneg2":
             return all(x >= 0 for x in cells)
         return sum((x & a[4]) if x >= 0 and a[4] >= 0 else 0 for x in cells)
+    if e.op in ("rowmaskzero", "rownonneg"):
+        arr = arrays[e.aux]
+        i = pyloops.wrap(arr.shape[0], a[0])
+        row = arr.data[i] if 0 <= i < arr.shape[0] else []  # the row index is tested separately (inbaxis0)
+        cells = [row[j] for j in range(*clip_slice(arr.shape[1], a[1], a[2]))] if row else []
+        if e.op == "rownonneg":
+            return all(x >= 0 for x in cells)
+        return [((x & a[3]) if x >= 0 and a[3] >= 0 else 0) == 0 for x in cells]
+    if e.op == "inbaxis0":
+        n = arrays[e.aux].shape[0]
+        return 0 <= pyloops.wrap(n, a[0]) < n
+    if e.op == "vreverse":
+        return list(reversed(a[0]))
+    if e.op == "argmax":
+        return a[0].index(True) if True in a[0] else 0
+    if e.op == "vnonempty":
+        return len(a[0]) > 0
+    if e.op == "vgetb":
+        i = pyloops.wrap(len(a[0]), a[1])
+        return a[0][i] if 0 <= i < len(a[0]) else False
+    if e.op == "vinbb":
+        return 0 <= pyloops.wrap(len(a[0]), a[1]) < len(a[0])
     if e.op == "resok":
         return a[0][0] == "ok"
     if e.op == "resget":
@@ -435,11 +460,16 @@ VECVAL = "vecval"  # a 1-D float array, as `List Val`
 RESVEC = "resvecval"  # what a call of a vector kernel returns
 LEAN_TYPE.setdefault(VECVAL, "List Val")  # additive: pyloops renders `let x : <type>` through this table
 LEAN_TYPE.setdefault(RESVEC, "PyLoops.Res (List Val)")
-NEW_OPS |= {"call", "resok", "resget", "countfinite", "anyfinite", "nanmedian", "sortedabsget", "vinb", "sumband2", "slicenonneg2"}
+VECBOOL = "vecbool"  # a 1-D boolean array (a mask), as `List Bool`
+LEAN_TYPE.setdefault(VECBOOL, "List Bool")
+NEW_OPS |= {"call", "resok", "resget", "countfinite", "anyfinite", "nanmedian", "sortedabsget", "vinb", "sumband2", "slicenonneg2",
+            "rowmaskzero", "rownonneg", "inbaxis0", "vreverse", "argmax", "vnonempty", "vgetb", "vinbb"}
 LOWER_TEXT = {
     "resok": "(PyInterp.Res.isOk {0})", "resget": "(PyInterp.Res.getD [] {0})", "countfinite": "(PyInterp.countFinite {0})",
     "anyfinite": "(PyInterp.anyFinite {0})", "nanmedian": "(PyInterp.nanmedian {0})",
     "sortedabsget": "(PyInterp.sortedAbsGet {0} {1})", "vinb": "(PyInterp.vinb {0} {1})",
+    "vreverse": "(List.reverse {0})", "argmax": "(PyInterp.argmax {0})", "vnonempty": "(!(List.isEmpty {0}))",
+    "vgetb": "(PyInterp.vget false {0} {1})", "vinbb": "(PyInterp.vinb {0} {1})",
 }
 
 
@@ -458,8 +488,74 @@ class CopyExprTranslator(ExtExprTranslator):
             return Ex("var", VECVAL, (), env[node.id].lean)
         return None
 
+    def bool_vec_local(self, node, env):
+        if isinstance(node, ast.Name) and node.id in env and env[node.id].ty == VECBOOL:
+            return Ex("var", VECBOOL, (), env[node.id].lean)
+        return None
+
+    def row_mask(self, node, env, facts):
+        """`(arr[i, lo:hi] & c) == 0`: the mask of a row slice (Python clips the slice: no read outside along the row; the
+        row index `i` is an ordinary index and is tested) -> Ex of type vecbool, or None when `node` is not of that form"""
+        if not (isinstance(node, ast.Compare) and len(node.ops) == 1 and isinstance(node.ops[0], ast.Eq)
+                and int_literal(node.comparators[0]) == 0 and isinstance(node.left, ast.BinOp) and isinstance(node.left.op, ast.BitAnd)):
+            return None
+        sub, cnode = node.left.left, node.left.right
+        if not (isinstance(sub, ast.Subscript) and isinstance(sub.value, ast.Name) and sub.value.id in self.arrays
+                and isinstance(sub.slice, ast.Tuple) and len(sub.slice.elts) == 2 and isinstance(sub.slice.elts[1], ast.Slice)
+                and not isinstance(sub.slice.elts[0], ast.Slice)):
+            return None
+        fn = self.fn.name
+        arr = self.arrays[sub.value.id]
+        sl = sub.slice.elts[1]
+        if arr.ndim != 2 or arr.elem != INT or sl.step is not None:
+            raise Unsupported(f"{fn}: `{src(node)}`: row-slice mask of a {arr.ndim}-D {arr.elem} array / slice with a step")
+        if self.short_circuit:
+            raise Unsupported(f"{fn}: array read `{src(node)}` inside the right operand of and/or")
+        i = self.expr(sub.slice.elts[0], env, facts)
+        lo = Ex("lit", INT, (), Fraction(0)) if sl.lower is None else self.expr(sl.lower, env, facts)
+        hi = Ex("var", INT, (), arr.dims[1]) if sl.upper is None else self.expr(sl.upper, env, facts)
+        c = self.expr(cnode, env, facts)
+        if not all(x.ty == INT for x in (i, lo, hi, c)):
+            raise Unsupported(f"{fn}: `{src(node)}`: index, slice bounds and constant must be integers")
+        self.reads.append(Ex("inbaxis0", BOOL, (i,), arr.name))
+        chk = nonneg_check(c)
+        if chk is not None:
+            self.reads.append(chk)
+        self.reads.append(Ex("rownonneg", BOOL, (i, lo, hi), arr.name))
+        return Ex("rowmaskzero", VECBOOL, (i, lo, hi, c), arr.name)
+
     def expr(self, node, env, facts) -> Ex:  # noqa: C901
         fn = self.fn.name
+        m = self.row_mask(node, env, facts)
+        if m is not None:
+            return m
+        if isinstance(node, ast.Subscript) and isinstance(node.value, ast.Name) and node.value.id in env \
+                and env[node.value.id].ty == VECBOOL:
+            v = Ex("var", VECBOOL, (), env[node.value.id].lean)
+            sl = node.slice
+            if isinstance(sl, ast.Slice):
+                step = sl.step
+                if sl.lower is None and sl.upper is None and isinstance(step, ast.UnaryOp) and isinstance(step.op, ast.USub) \
+                        and int_literal(step.operand) == 1:
+                    return Ex("vreverse", VECBOOL, (v,))
+                raise Unsupported(f"{fn}: `{src(node)}`: the only slice of a mask is `[::-1]`")
+            if isinstance(sl, ast.Tuple):
+                raise Unsupported(f"{fn}: `{src(node)}`: a mask has one dimension")
+            if self.short_circuit:
+                raise Unsupported(f"{fn}: mask read `{src(node)}` inside the right operand of and/or")
+            k = self.expr(sl, env, facts)
+            if k.ty != INT:
+                raise Unsupported(f"{fn}: index `{src(sl)}` is a {k.ty}")
+            self.reads.append(Ex("vinbb", BOOL, (v, k)))
+            return Ex("vgetb", BOOL, (v, k))
+        if isinstance(node, ast.Name) and node.id in env and env[node.id].ty == VECBOOL:
+            return Ex("var", VECBOOL, (), env[node.id].lean)
+        if isinstance(node, ast.Call) and not node.keywords and self.is_np_call(node, "argmax"):
+            v = self.expr(node.args[0], env, facts)
+            if v.ty != VECBOOL:
+                raise Unsupported(f"{fn}: `{src(node)}`: np.argmax of something that is not a mask")
+            self.reads.append(Ex("vnonempty", BOOL, (v,)))  # numpy raises on an empty array
+            return Ex("argmax", INT, (v,))
         if isinstance(node, ast.Call) and not node.keywords:
             f = node.func
             if self.is_np_call(node, "sum") and self.is_np_call(node.args[0], "isfinite"):
@@ -653,8 +749,25 @@ class CopyKernelTranslator(VecKernelTranslator):
                     env2 = dict(env)
                     env2[t] = Binding(env[inner.id].lean, "perm:" + inner.id)
                     return self.block(rest, env2, cont, leaf, brk_leaf)
+            if isinstance(st, ast.Assign) and len(st.targets) == 1 and isinstance(st.targets[0], ast.Name):
+                # a mask local (`msk = (valid[col, a:b] & c) == 0`, `msk = msk[::-1]`); may be re-assigned
+                mark = len(self.x.reads)
+                try:
+                    e = self.expr(st.value, env)
+                except Unsupported:
+                    e = None
+                if e is not None and e.ty == VECBOOL:
+                    name = st.targets[0].id
+                    if name in self.frozen or name.startswith("py") or (name in env and env[name].ty != VECBOOL):
+                        self.bad(f"`{src(st)}`: `{name}` cannot hold a mask")
+                    env2 = dict(env)
+                    env2[name] = Binding(lean_ident(name), VECBOOL)
+                    return self.with_checks(lambda: TLet(lean_ident(name), e, self.block(rest, env2, cont, leaf, brk_leaf)))
+                del self.x.reads[mark:]
             if isinstance(st, (ast.Assign, ast.AugAssign)):
                 tg = st.targets[0] if isinstance(st, ast.Assign) else st.target
+                if isinstance(tg, ast.Name) and tg.id in env and env[tg.id].ty == VECBOOL:
+                    self.bad(f"`{src(st)}`: the mask `{tg.id}` is assigned something that is not a mask")
                 if isinstance(tg, ast.Name) and tg.id in env and (env[tg.id].ty == VECVAL or str(env[tg.id].ty).startswith("perm:")):
                     self.bad(f"`{src(st)}`: the vector local `{tg.id}` is assigned twice")
         return super().block(ss, env, cont, leaf, brk_leaf)
